@@ -220,3 +220,91 @@ func updateFnLint(w *World, r *Report, rule string) {
 	}
 	r.addRaw(rule, "-", "update function literals passed to swap! in the embedded headers", "-", "info", fmt.Sprintf("%d examined", n))
 }
+
+// rethrowLint: a value thrown again by lisp code is positioned anew, at the (throw …) form that throws it
+// (the evaluator positions the error of a builtin call at the call form). A catch handler written in the
+// embedded headers that passes what it caught to throw - itself or through a header function that throws
+// the parameter it is given - therefore moves every error raised inside the library macro's operand into
+// the header's module. (finally is how a library form does something on the way out of a failing operand.)
+func rethrowLint(w *World, r *Report, rule string) {
+	r.rule(rule, "no catch handler in the embedded lisp headers hands the value it caught to throw, directly or through a header function that throws one of its parameters: an error raised in the operand of a library macro leaves the macro with the position it had (a re-throw from the header would be positioned in the header's module)")
+	files, err := w.lispFiles()
+	if err != nil {
+		r.undecided(rule, nil, "lisp headers", token.NoPos, err.Error())
+		return
+	}
+	// header functions that throw a parameter: name -> indexes of the parameters thrown
+	throwers := map[string]map[int]bool{}
+	type fdef struct {
+		name   string
+		params []string
+		body   []*sx
+	}
+	var defs []fdef
+	for _, f := range files {
+		for _, form := range f.forms {
+			form.walk(func(s *sx) {
+				if (s.head() == "def" || s.head() == "defmacro") && len(s.items) == 3 && s.items[1].kind == "sym" && s.items[2].head() == "fn" && len(s.items[2].items) >= 3 {
+					fn := s.items[2]
+					d := fdef{name: s.items[1].text, body: fn.items[2:]}
+					for _, p := range fn.items[1].items {
+						d.params = append(d.params, p.text)
+					}
+					defs = append(defs, d)
+				}
+			})
+		}
+	}
+	// throws(body, sym): body contains (throw sym) or (f … sym …) with f throwing that parameter
+	var throws func(body []*sx, sym string) string
+	throws = func(body []*sx, sym string) string {
+		found := ""
+		for _, b := range body {
+			b.walk(func(x *sx) {
+				if x.kind != "list" || len(x.items) < 2 || x.items[0].kind != "sym" {
+					return
+				}
+				if x.items[0].text == "throw" && x.items[1].kind == "sym" && x.items[1].text == sym {
+					found = "(throw " + sym + ")"
+				}
+				if idx, ok := throwers[x.items[0].text]; ok {
+					for i, a := range x.items[1:] {
+						if a.kind == "sym" && a.text == sym && idx[i] {
+							found = "(" + x.items[0].text + " … " + sym + " …), which throws that argument"
+						}
+					}
+				}
+			})
+		}
+		return found
+	}
+	for round := 0; round < 3; round++ {
+		for _, d := range defs {
+			for i, p := range d.params {
+				if p != "&" && throws(d.body, p) != "" {
+					if throwers[d.name] == nil {
+						throwers[d.name] = map[int]bool{}
+					}
+					throwers[d.name][i] = true
+				}
+			}
+		}
+	}
+	n := 0
+	for _, f := range files {
+		for _, form := range f.forms {
+			form.walk(func(s *sx) {
+				if s.head() != "catch" || len(s.items) < 2 || s.items[1].kind != "sym" {
+					return
+				}
+				n++
+				status, detail := "discharged", "the handler does not throw what it caught"
+				if how := throws(s.items[2:], s.items[1].text); how != "" {
+					status, detail = "violated", "the handler passes the caught value on with "+how+": the error leaves the library form positioned at that throw form in the header's module, not at the failing expression of the program"
+				}
+				r.addRaw(rule, f.path, "catch handler binding "+s.items[1].text, fmt.Sprintf("%s:%d", f.path, s.line), status, detail)
+			})
+		}
+	}
+	r.floor(rule, "catch handlers in the embedded headers", n, 3)
+}
